@@ -169,6 +169,25 @@ class Lengths:
             return ["?param:" + str(t[2])]
         if t[0] == "const":
             return ["CONST:%s" % (t[1],)]
+        if t[0] == "call" and t[1].startswith(B) and t[1].rsplit("::", 1)[-1] not in RESOLVERS and "{closure" not in t[1]:
+            # a small local helper (e.g. `fn padding_samples(pad, rate) -> usize`): substitute the arguments into its
+            # returned expression and classify that in the caller's context
+            h = self.by_path.get(t[1])
+            if h is not None and len(h.blocks) <= 6 and h.argc == len(t[2]):
+                body = fn_expr_operand(h, {"m": {"l": 0, "pr": []}})
+                args = t[2]
+
+                def sub(n):
+                    if n[0] == "param" and 1 <= n[1] <= len(args):
+                        return args[n[1] - 1]
+                    return None
+
+                inl = _map_expr(body, sub)
+                alts = self.classify(f, inl, depth + 1)
+                if len(alts) == 1 and len(alts[0]) == 1:
+                    return [alts[0][0]]
+                return [a for a in alts]
+            return ["?helper:" + t[1].rsplit("::", 1)[-1]]
         return ["?" + t[0]]
 
     def _leafname(self, e):
@@ -381,7 +400,7 @@ def run(ctx):
             res.site(key, True, {"terms": alts, "expected": want or "PADL | PADR", "verdict": "ok" if ok else "VIOLATION"})
             if not ok:
                 res.find(key, f.loc(), "%s: the length at `%s` is made of %s; expected exactly %s (resolved count = round(duration*rate)%s)" % (short, what, alts, want or "one padding", ", paddings = ceil(pad*rate)" if padded else ""), "an ErfSquare with pad_left = 1.5 samples gets 1 instead of 2 padding samples, or a placeholder is shorter than the samples it stands for")
-    res.count("length_sites", nsites, floor=16)
+    res.count("length_sites", nsites, floor=22)
 
     # padded waveforms: left zeros . samples . right zeros
     for p in PADDED:
